@@ -326,6 +326,9 @@ func c08TypedCheck(c *Ctx, cs c08TypedCase) *Failure {
 	switch cs.Variant {
 	case "var", "invalid", "yaml11-true", "yaml11-false":
 		setLeaf(varDoc, leaf.segs, "${V}")
+	case "string-literal":
+		// the text as a quoted scalar in a document without any `$`: the same string the substitution would leave
+		setLeaf(varDoc, leaf.segs, cs.Text)
 	case "default":
 		setLeaf(varDoc, leaf.segs, "${UNSET_VARIABLE:-"+cs.Text+"}")
 	case "split":
@@ -472,6 +475,8 @@ func c08TypedCases() ([]c08TypedCase, map[string]int) {
 			out = append(out, c08TypedCase{Path: p, Literal: lit, Kind: kind, Variant: v, Text: lit})
 		}
 		out = append(out, c08TypedCase{Path: p, Literal: lit, Kind: kind, Variant: "var", Text: lit, Dotted: true})
+		out = append(out, c08TypedCase{Path: p, Literal: lit, Kind: kind, Variant: "string-literal", Text: lit})
+		out = append(out, c08TypedCase{Path: p, Literal: lit, Kind: kind, Variant: "string-literal", Text: lit, Via: "include"})
 		out = append(out, c08TypedCase{Path: p, Literal: lit, Kind: kind, Variant: "var", Text: lit, Via: "include"})
 		out = append(out, c08TypedCase{Path: p, Literal: lit, Kind: kind, Variant: "default", Text: lit, Via: "include"})
 		out = append(out, c08TypedCase{Path: p, Literal: lit, Kind: kind, Variant: "var", Text: lit, Via: "second-document"})
